@@ -28,7 +28,7 @@ type c02Case struct {
 
 func c02Sizes(tier string) (units, per int) {
 	if tier == "thorough" {
-		return 4000, 120
+		return 12000, 120
 	}
 	return 256, 24
 }
@@ -43,7 +43,7 @@ func c02Exhaustive(c *mon.Ctx, part int) {
 	grid := []string{"-2", "-1.5", "-1", "-0.5", "0", "0.5", "1", "1.5", "2"}
 	var docs []*model.Val
 	for _, g := range []string{"-2.5", "-2", "-1.75", "-1.5", "-1", "-0.5", "-0.25", "0", "0.25", "0.5", "1", "1.25", "1.5", "2", "2.5"} {
-		for _, sp := range []string{g, g + "0", "" } {
+		for _, sp := range []string{g, g + "0", ""} {
 			if sp == "" {
 				x, _ := model.Rat(g)
 				sp = gen.RatText(x) + "e0"
